@@ -272,5 +272,31 @@ func vfC15(w *vfWorld) {
 			w.nontriv = true
 		}
 	}
+	// reverse-proxy mode: the client address is what the configured header says. A header that names no address (not an
+	// IP, empty first element, zone identifier, host name) or is absent identifies nobody - the connection's own address,
+	// even a trusted one (the front proxy), must not stand in for it
+	if cfg.ReverseProxy && len(trusted) > 0 {
+		peer := trusted[t.Choice("c15.trustedpeer", len(trusted))].IP.String()
+		addr := peer + ":5555"
+		if strings.Contains(peer, ":") {
+			addr = "[" + peer + "]:5555"
+		}
+		routeExempt := false
+		for _, rt := range routes {
+			if rt.Exempts("GET", "/x/trusted-probe") {
+				routeExempt = true
+			}
+		}
+		for _, hv := range []string{"unknown", "unknown, 10.1.2.3", "client.example.com", "fe80::1%eth0", ", 10.1.2.3", "10.1.2", "10.1.2.3.4", "0x0a010203", "-"} {
+			r := cl.Do(rep, &vfReq{Method: "GET", Target: "/x/trusted-probe", NoJar: true, RemoteAddr: addr, Headers: [][2]string{{"X-Real-IP", hv}}})
+			if r.ParseErr != nil {
+				continue
+			}
+			cs.Requests++
+			if len(r.UpHits) > 0 && !routeExempt {
+				w.violate("C15", "untrusted-address-exempted", "unparsable-client-ip-header", "reverse-proxy mode, connection from the trusted address %s, X-Real-IP: %q names no client address, yet the request was exempted (networks %v)", peer, hv, cs.Trusted)
+			}
+		}
+	}
 	w.distKey = fmt.Sprintf("%v/%v/%v/%v", cs.Routes, cs.Trusted, cs.Preflight, cs.ReverseProxy)
 }
